@@ -249,6 +249,26 @@ def run(tier: str, seed: int) -> int:
     tag_behaviour(res, order, dict(reg["tags"]))
     unregistered_codes(res, order, spaces)
     res.notes["not_in_registry"] = sorted(set(not_in_registry))
+    # a registered name the running code no longer has in its key space: the name itself is the failing input (C08-p)
+    for sp, rn in registry.items():
+        if sp not in spaces:
+            continue
+        entry = spaces[sp]
+        ci, kind, names = entry[0], entry[1], entry[2]
+        for n, code in rn.items():
+            if n in names and names[n] == code:
+                continue
+            if kind == "enum":
+                obj = n
+            else:
+                obj = {n: 0}
+            try:
+                got = order[ci].from_obj(__import__("copy").deepcopy(obj)).to_cbor().hex()
+            except BaseException as e:  # noqa
+                got = suitio.err_class(e)
+            res.case([sp, n, "registered-missing"])
+            res.spec_failures.append({"space": sp, "name": n, "registered_code": code, "code_in_tool": names.get(n), "description": str(obj), "impl": got,
+                                      "what": f"the registered name {n} of key space {sp} (code {code}) is not a member of that key space in the tool"})
     # a vocabulary-bearing class the registry does not know, all of whose members are members of ONE registered key space with the registered
     # codes: that key space applies there, so every name of it must be accepted there (a key space split for one context, C08-o)
     for sp, entry in spaces.items():
